@@ -92,21 +92,46 @@ def truth_table(e, rem, div, guards=()):
     return bad
 
 
+def _mult_partner(e, c):
+    """identifier the candidate predicate c is multiplied with inside e (`pred * b`, `b * pred`), or None"""
+    for x in cexpr.walk(e):
+        if x[0] == 'bin' and x[1] == '*':
+            for me, other in ((x[2], x[3]), (x[3], x[2])):
+                if me == c and other[0] == 'id':
+                    return other[1]
+                # the non-zero test may sit outside the multiplication operand: (r != 0 & pred) is the candidate itself
+    return None
+
+
 def sites(text):
+    """-> [(offset of the `^`, predicate AST, identifier the predicate is multiplied with or None)]: predicates written as a value
+    (`r += pred * b;`, `q -= pred;`, `return ...pred...;`) and as the condition of an if statement (`if (pred) r += b;`)."""
+    from ..engine.cutil import match_paren
     out = []
     for m in re.finditer(r'[^;{}]*\^[^;{}]*;', text):
         st = m.group(0)
         if '< 0' not in st.replace('<0', '< 0') or '\n#' in st:
             continue
         body = st.strip().rstrip(';')
-        mm = re.match(r'(?s)(?:return\b|[^=]*?(?:\+=|-=|=(?!=)))(.*)$', body)
-        rhs = mm.group(1) if mm else body
-        try:
-            e = cexpr.parse(' '.join(rhs.split()))
-        except cexpr.ParseError:
-            continue
-        for c in candidates(e):
-            out.append((m.start() + st.index('^'), c))
+        im = re.match(r'(?:else\s+)?if\s*\(', body)
+        pieces = []
+        while im:
+            q = match_paren(body, im.end() - 1)
+            if q is None or q <= 0:
+                break
+            pieces.append(body[im.end():q])
+            body = body[q + 1:].strip()
+            im = re.match(r'(?:else\s+)?if\s*\(', body)
+        if '^' in body:
+            mm = re.match(r'(?s)(?:return\b|(?:[^=!<>]|[!<>]=?)*?(?:\+=|-=|=(?!=)))(.*)$', body)
+            pieces.append(mm.group(1) if mm else body)
+        for rhs in pieces:
+            try:
+                e = cexpr.parse(' '.join(rhs.split()))
+            except cexpr.ParseError:
+                continue
+            for c in candidates(e):
+                out.append((m.start() + st.index('^'), c, _mult_partner(e, c)))
     return out
 
 
@@ -116,7 +141,7 @@ def rule_adj(ctx, floor=5):
         text = strip_c_comments(ctx.read(rel))
         fn = rel.rsplit('/', 1)[1]
         seen = {}
-        for pos, e in sites(text):
+        for pos, e, partner in sites(text):
             line = text.count('\n', 0, pos) + 1
             head = None
             for hm in re.finditer(r'^/{5,}\s*([\w.]+)\s*/{5,}', text[:pos], re.M):
@@ -128,6 +153,20 @@ def rule_adj(ctx, floor=5):
             n = seen[head] = seen.get(head, 0) + 1
             key = '%s:%s#%d' % (fn, head, n)
             rl = roles(e)
+            if rl is None:
+                # no zero test and no conventional name: take the roles from the statement that computes the remainder in the same function
+                f0 = function_at(text, pos)
+                dm = f0 and re.search(r'\b(\w+)\s*=\s*(?:fmod\w*\s*\(\s*(\w+)\s*,\s*(\w+)\s*\)|(\w+)\s*%%?\s*(\w+)\s*;)', text[f0[1]:f0[2] + 1])
+                if dm:
+                    rem0, div0 = dm.group(1), dm.group(3) or dm.group(5)
+                    ids0 = idents(e)
+                    if rem0 in ids0 and div0 not in ids0:
+                        r.inst(key, sample='%s line %d: remainder %s, divisor %s' % (key, line, rem0, div0))
+                        r.violate(key, rel, line, 'floor adjustment in %s compares the sign of the remainder %s with the sign of %s, but the divisor of the operation is %s: '
+                                  'the result of %% gets the sign of the wrong operand' % (head, rem0, [i for i in ids0 if i != rem0][0], div0))
+                        continue
+                    if rem0 in ids0 and div0 in ids0:
+                        rl = (rem0, div0)
             if rl is None:
                 raise AnalysisError('%s:%d: cannot tell remainder from divisor in a floor-adjustment predicate' % (rel, line))
             rem, div = rl
@@ -142,6 +181,10 @@ def rule_adj(ctx, floor=5):
                         continue
                     if set(idents(ge)) <= {rem, div}:
                         gs.append((ge, pol))
+            if partner == div and f is not None and re.search(r'\bfmod\w*\s*\(|\bfmod%\(', text[f[1]:f[2] + 1]):
+                r.violate(key, rel, line, 'floor adjustment in %s multiplies the floating-point divisor %s with the 0/1 predicate: for an infinite divisor fmod() returns the dividend and '
+                          '0 * inf is NaN (1.5 %% inf gives nan, Python gives 1.5); the addition has to be conditional' % (head, div))
+                continue
             bad = truth_table(e, rem, div, gs)
             if bad:
                 sel, rv, bv, got, want = bad[0]
